@@ -1,0 +1,122 @@
+//go:build verif
+
+// Contracts for the deductive verifier in /verif (govc); comments only.
+package obfs3
+
+//@ pred o3txOK(conn) := conn.tx != nil && conn.tx.S != nil && conn.tx.W == conn.Conn && whole(conn.tx)
+//@ pred o3rxOK(conn) := conn.rx != nil && conn.rx.S != nil && whole(conn.rx) && (conn.rxBuf != nil ==> typeis(conn.rx.R, "*bytes.Buffer") && payload(conn.rx.R) == conn.rxBuf && whole(conn.rxBuf)) && (conn.rxBuf == nil ==> conn.rx.R == conn.Conn)
+
+// key derivation of the obfs3 specification: INIT/RESP_SECRET = HMAC(SHARED_SECRET, role string), split 16/16;
+// the magic values are HMAC(SHARED_SECRET, "Initiator magic" / "Responder magic")
+//@ func (*obfs3Conn).kdf(conn, sharedSecret) (err)
+//@   serves C13 C10
+//@   requires conn != nil && conn.Conn != nil && whole(conn) && conn.rxBuf != nil && whole(conn.rxBuf)
+//@   modifies conn.tx, conn.rx, conn.txMagic, conn.rxMagic
+//@   ghost SS := seq(sharedSecret)
+//@   ensures [C13:kdf_never_fails] err == nil
+//@   ensures [C13:initiator_keys] conn.isInitiator ==> conn.tx.S.skey == sub(HASH(1, SS, initiatorKdfString), 0, 16) && conn.tx.S.siv == sub(HASH(1, SS, initiatorKdfString), 16, 32)
+//@       && conn.rx.S.skey == sub(HASH(1, SS, responderKdfString), 0, 16) && conn.rx.S.siv == sub(HASH(1, SS, responderKdfString), 16, 32)
+//@       && seq(conn.txMagic) == HASH(1, SS, initiatorMagicString) && seq(conn.rxMagic) == HASH(1, SS, responderMagicString)
+//@   ensures [C13:responder_keys] !conn.isInitiator ==> conn.tx.S.skey == sub(HASH(1, SS, responderKdfString), 0, 16) && conn.tx.S.siv == sub(HASH(1, SS, responderKdfString), 16, 32)
+//@       && conn.rx.S.skey == sub(HASH(1, SS, initiatorKdfString), 0, 16) && conn.rx.S.siv == sub(HASH(1, SS, initiatorKdfString), 16, 32)
+//@       && seq(conn.txMagic) == HASH(1, SS, responderMagicString) && seq(conn.rxMagic) == HASH(1, SS, initiatorMagicString)
+//@   ensures [C13:established] o3txOK(conn) && o3rxOK(conn) && conn.tx.S.spos == 0 && conn.rx.S.spos == 0 && conn.txMagic != nil && conn.rxMagic != nil && len(conn.txMagic) == 32 && len(conn.rxMagic) == 32
+//@       && fresh(conn.tx) && fresh(conn.rx) && fresh(conn.txMagic) && fresh(conn.rxMagic)
+
+// Scan for the peer's magic value: everything received is appended to rxBuf; the scan succeeds at the
+// FIRST occurrence, which must start within the first 8194 bytes, and leaves exactly the bytes after it.
+//@ func (*obfs3Conn).findPeerMagic(conn) (err)
+//@   serves C13 C10
+//@   requires conn != nil && conn.Conn != nil && whole(conn) && conn.rxBuf != nil && whole(conn.rxBuf) && len(conn.rxBuf.content) == 0 && conn.rxMagic != nil && len(conn.rxMagic) == 32
+//@   requires !typeis(conn.Conn, "*obfs3.obfs3Conn")
+//@   modifies conn.rxBuf.content, conn.Conn.rd, conn.Conn.nreads, blocked
+//@   ghost RD := conn.Conn.rd
+//@   ghost MAGIC := seq(conn.rxMagic)
+//@   loop 1 invariant conn.Conn.rd == cat(RD, conn.rxBuf.content)
+//@   loop 1 invariant [C13:magic_not_seen_yet] forall(j, 0, len(conn.rxBuf.content) - 31, sub(conn.rxBuf.content, j, j + 32) != MAGIC)
+//@   loop 1 invariant [C10:rx_bound] len(conn.rxBuf.content) < 8226
+//@   ensures [C13:received_in_order] len(conn.Conn.rd) >= len(RD) && sub(conn.Conn.rd, 0, len(RD)) == RD
+//@   ensures [C13:magic_found_first] err == nil ==> len(conn.Conn.rd) - len(RD) - len(conn.rxBuf.content) - 32 >= 0 && len(conn.Conn.rd) - len(RD) - len(conn.rxBuf.content) - 32 <= 8194
+//@       && sub(conn.Conn.rd, len(conn.Conn.rd) - len(conn.rxBuf.content) - 32, len(conn.Conn.rd) - len(conn.rxBuf.content)) == MAGIC
+//@       && conn.rxBuf.content == sub(conn.Conn.rd, len(conn.Conn.rd) - len(conn.rxBuf.content), len(conn.Conn.rd))
+//@   ensures [C13:no_earlier_magic] err == nil ==> forall(j, 0, len(conn.Conn.rd) - len(RD) - len(conn.rxBuf.content) - 32, sub(conn.Conn.rd, len(RD) + j, len(RD) + j + 32) != MAGIC)
+//@   ensures [C10:rx_bound] len(conn.rxBuf.content) <= 16452
+
+// an obfs3 connection after the handshake
+//@ pred o3Inv(conn) := conn != nil && conn.Conn != nil && whole(conn) && !typeis(conn.Conn, "*obfs3.obfs3Conn") && o3txOK(conn) && o3rxOK(conn)
+//@     && (conn.rxMagic != nil ==> len(conn.rxMagic) == 32 && conn.rxBuf != nil && len(conn.rxBuf.content) == 0)
+//@     && (conn.txMagic != nil ==> len(conn.txMagic) == 32)
+
+// Read: the first call locates the peer's magic value (anywhere in the first 8194 bytes, however the
+// stream is segmented); the n bytes returned are always the positional CTR transformation of the next n
+// raw bytes after the magic - taken from the bytes that arrived coalesced with it first, then from the
+// connection.
+//@ func (*obfs3Conn).Read(conn, b) (n, err)
+//@   serves C13 C10
+//@   requires o3Inv(conn)
+//@   modifies conn.rxMagic, conn.rxBuf, conn.rx.R, conn.rx.S.spos, conn.rxBuf.content, conn.Conn.rd, conn.Conn.nreads, conn.Conn.closed, elems(b), blocked
+//@   ghost RD := conn.Conn.rd
+//@   ghost MAGIC := seq(conn.rxMagic)
+//@   ghost BUF := conn.rxBuf
+//@   ghost C0 := conn.rxBuf.content
+//@   ensures 0 <= n && n <= len(b) && (err == nil || old(conn.rxMagic) == nil ==> o3Inv(conn))
+//@   ensures [C13:raw_stream_grows] len(conn.Conn.rd) >= len(RD) && sub(conn.Conn.rd, 0, len(RD)) == RD
+//@   ensures [C13:position_advances_by_n] conn.rx.S.spos == old(conn.rx.S.spos) + n && unchanged(conn.rx.S.skey, conn.rx.S.siv)
+//@   ensures [C13:magic_scanned_once] err == nil ==> conn.rxMagic == nil
+//@   ensures [C13:buffered_first] old(conn.rxMagic) == nil && BUF != nil && len(C0) > 0 ==> n == min(len(b), len(C0)) && conn.Conn.rd == RD
+//@       && seq(b[0:n]) == CTR(conn.rx.S.skey, conn.rx.S.siv, old(conn.rx.S.spos), sub(C0, 0, n)) && conn.rxBuf == BUF && BUF.content == sub(C0, n, len(C0))
+//@   ensures [C13:then_network] old(conn.rxMagic) == nil && (BUF == nil || len(C0) == 0) ==> conn.rxBuf == nil && len(conn.Conn.rd) == len(RD) + n
+//@       && seq(b[0:n]) == CTR(conn.rx.S.skey, conn.rx.S.siv, old(conn.rx.S.spos), sub(conn.Conn.rd, len(RD), len(conn.Conn.rd)))
+//@   ensures [C13:first_read_after_magic] old(conn.rxMagic) != nil && err == nil ==> len(conn.Conn.rd) - len(RD) - ite(conn.rxBuf == nil, 0, len(BUF.content)) - n - 32 >= 0
+//@       && len(conn.Conn.rd) - len(RD) - ite(conn.rxBuf == nil, 0, len(BUF.content)) - n - 32 <= 8194
+//@       && sub(conn.Conn.rd, len(conn.Conn.rd) - ite(conn.rxBuf == nil, 0, len(BUF.content)) - n - 32, len(conn.Conn.rd) - ite(conn.rxBuf == nil, 0, len(BUF.content)) - n) == MAGIC
+//@       && seq(b[0:n]) == CTR(conn.rx.S.skey, conn.rx.S.siv, old(conn.rx.S.spos), sub(conn.Conn.rd, len(conn.Conn.rd) - ite(conn.rxBuf == nil, 0, len(BUF.content)) - n, len(conn.Conn.rd) - ite(conn.rxBuf == nil, 0, len(BUF.content))))
+//@       && (conn.rxBuf != nil ==> BUF.content == sub(conn.Conn.rd, len(conn.Conn.rd) - len(BUF.content), len(conn.Conn.rd)))
+//@   ensures [C13:no_earlier_magic] old(conn.rxMagic) != nil && err == nil ==> forall(j, 0, len(conn.Conn.rd) - len(RD) - ite(conn.rxBuf == nil, 0, len(BUF.content)) - n - 32, sub(conn.Conn.rd, len(RD) + j, len(RD) + j + 32) != MAGIC)
+
+// Write: the first call sends WR(PADLEN <= 4097) | MAGIC before the data; data bytes are the positional
+// CTR transformation, in order.
+//@ func (*obfs3Conn).Write(conn, b) (n, err)
+//@   serves C13 C10
+//@   requires o3Inv(conn)
+//@   modifies conn.txMagic, conn.tx.S.spos, conn.Conn.wr, conn.Conn.nwrites, conn.Conn.closed
+//@   ghost WR := conn.Conn.wr
+//@   ghost MAGIC := seq(conn.txMagic)
+//@   ensures 0 <= n && n <= len(b) && (err == nil ==> n == len(b)) && o3Inv(conn)
+//@   ensures [C13:tx_plain] old(conn.txMagic) == nil ==> conn.Conn.wr == cat(WR, sub(CTR(conn.tx.S.skey, conn.tx.S.siv, old(conn.tx.S.spos), seq(b)), 0, n)) && conn.tx.S.spos == old(conn.tx.S.spos) + len(b)
+//@   ensures [C13:tx_magic_once] old(conn.txMagic) != nil && err == nil ==> conn.txMagic == nil && len(conn.Conn.wr) - len(WR) - 32 - len(b) >= 0 && len(conn.Conn.wr) - len(WR) - 32 - len(b) <= 4097
+//@       && sub(conn.Conn.wr, 0, len(WR)) == WR
+//@       && sub(conn.Conn.wr, len(conn.Conn.wr) - 32 - len(b), len(conn.Conn.wr) - len(b)) == MAGIC
+//@       && sub(conn.Conn.wr, len(conn.Conn.wr) - len(b), len(conn.Conn.wr)) == CTR(conn.tx.S.skey, conn.tx.S.siv, old(conn.tx.S.spos), seq(b))
+//@       && conn.tx.S.spos == old(conn.tx.S.spos) + len(b)
+//@   ensures unchanged(conn.tx.S.skey, conn.tx.S.siv)
+
+// Handshake of the obfs3 specification: each side sends PUB_KEY (192 bytes) | WR(PADLEN <= 4097), reads
+// exactly the peer's 192 key bytes (any segmentation), and keys the session with the UniformDH secret.
+//@ func (*obfs3Conn).handshake(conn) (err)
+//@   serves C13 C10
+//@   requires conn != nil && conn.Conn != nil && whole(conn) && !typeis(conn.Conn, "*obfs3.obfs3Conn") && plainReader(conn.Conn) && conn.rxBuf != nil && whole(conn.rxBuf) && len(conn.rxBuf.content) == 0
+//@   modifies conn.tx, conn.rx, conn.txMagic, conn.rxMagic, conn.Conn.*, blocked, csrand.Reader.*
+//@   ghost WR := conn.Conn.wr
+//@   ghost RD := conn.Conn.rd
+//@   assert_at Conn).Write#1 [C13:sends_public_key_first] len(arg1) >= 192 && len(arg1) <= 192 + 4097 && sub(seq(arg1), 0, 192) == seq(privateKey.PublicKey.bytes)
+//@   assert_at uniformdh.Handshake#1 [C13:secret_from_peer_key] arg1.publicKey != nil && arg1.publicKey.val == unbe(sub(conn.Conn.rd, len(RD), len(RD) + 192)) && arg0 == privateKey
+//@   ensures [C13:sent_key_and_padding] err == nil ==> len(conn.Conn.wr) >= len(WR) + 192 && len(conn.Conn.wr) <= len(WR) + 192 + 4097 && sub(conn.Conn.wr, 0, len(WR)) == WR
+//@   ensures [C13:read_exactly_the_key] err == nil ==> len(conn.Conn.rd) == len(RD) + 192 && sub(conn.Conn.rd, 0, len(RD)) == RD
+//@   ensures [C13:established] err == nil ==> o3Inv(conn) && conn.txMagic != nil && conn.rxMagic != nil && conn.tx.S.spos == 0 && conn.rx.S.spos == 0
+
+//@ func newObfs3ClientConn(conn) (c, err)
+//@   serves C13 C10
+//@   requires conn != nil && !typeis(conn, "*obfs3.obfs3Conn") && plainReader(conn)
+//@   modifies conn.*, blocked, now, csrand.Reader.*
+//@   ensures [C13:client_is_initiator] err == nil ==> c != nil && fresh(c) && c.isInitiator && c.Conn == conn && o3Inv(c) && c.txMagic != nil && c.rxMagic != nil && c.tx.S.spos == 0 && c.rx.S.spos == 0
+//@   ensures [C13:deadline_disarmed] err == nil ==> conn.deadline == 0
+//@   ensures (err == nil) == (c != nil)
+
+//@ func newObfs3ServerConn(conn) (c, err)
+//@   serves C13 C10
+//@   requires conn != nil && !typeis(conn, "*obfs3.obfs3Conn") && plainReader(conn)
+//@   modifies conn.*, blocked, now, csrand.Reader.*
+//@   ensures [C13:server_is_responder] err == nil ==> c != nil && fresh(c) && !c.isInitiator && c.Conn == conn && o3Inv(c) && c.txMagic != nil && c.rxMagic != nil && c.tx.S.spos == 0 && c.rx.S.spos == 0
+//@   ensures [C13:deadline_disarmed] err == nil ==> conn.deadline == 0
+//@   ensures (err == nil) == (c != nil)
